@@ -34,6 +34,7 @@ type Chunk struct {
 	Data        []byte
 	WaitReplies int // deliverable only after the client has received this many complete replies
 	WaitTicks   int // deliverable only after this many TICK events
+	Gate        func(w *World) bool // optional extra condition
 }
 
 type ClientSpec struct {
@@ -93,6 +94,7 @@ type Scenario struct {
 	IntnChoice  bool
 	WriteOracle bool
 	NoBootTick  bool
+	InputEnum   bool // the scenario itself is one point of an input enumeration (counts as a distinct non-trivial case)
 	ReuseFds    bool
 	AfterBoot   func(w *World)
 	// cross-execution oracle: Observe is recorded per execution, Final judges the multiset of a scenario
@@ -114,6 +116,7 @@ type Violation struct {
 // world
 
 type CmdRec struct {
+	CR    int // total complete replies all clients had received when this command arrived
 	Seq   int
 	Addr  string
 	Conn  int
@@ -501,12 +504,20 @@ func (bc *BConn) headReady(w *World) bool {
 	return h == 0 || (h > 0 && w.Ticks >= h)
 }
 
+// Delivered: number of chunks of this client already handed to the proxy's socket and read by it.
+func (c *Client) DeliveredChunks() int {
+	if len(c.Sock.Rx) > 0 && c.next > 0 {
+		return c.next - 1
+	}
+	return c.next
+}
+
 func (c *Client) chunkReady(w *World) bool {
 	if c.PeerClosed || c.next >= len(c.Spec.Chunks) {
 		return false
 	}
 	ch := c.Spec.Chunks[c.next]
-	return c.NReplies >= ch.WaitReplies && w.Ticks >= ch.WaitTicks
+	return c.NReplies >= ch.WaitReplies && w.Ticks >= ch.WaitTicks && (ch.Gate == nil || ch.Gate(w))
 }
 
 func (w *World) wait() (fd int, mask uint32, n int, stop bool) {
@@ -708,7 +719,11 @@ func (w *World) feed(bc *BConn, b []byte) {
 			cp[i] = append([]byte{}, a...)
 		}
 		reply, hold := w.answer(bc, cp)
-		rec := CmdRec{Seq: len(w.Cmds), Addr: bc.Addr, Conn: bc.ID, Raw: raw, Args: cp, Reply: reply}
+		cr := 0
+		for _, c := range w.Clients {
+			cr += c.NReplies
+		}
+		rec := CmdRec{CR: cr, Seq: len(w.Cmds), Addr: bc.Addr, Conn: bc.ID, Raw: raw, Args: cp, Reply: reply}
 		bc.Log = append(bc.Log, rec)
 		w.Cmds = append(w.Cmds, rec)
 		if hold < 0 {
